@@ -181,6 +181,16 @@ _WHERE = {
             "dependency fields, the marker scanner, HTMLDocument as the source of the expected head markup, CPython.",
             "TLA+ spec (DepJson/DepJsonOps) model-checked with TLC; TLC-generated strings and texts replayed into the "
             "code; recorded serialisations and extractions validated by TLC trace spec (JsonTrace)"),
+    "C18": ("determinism", "C18",
+            "TLC enumerates the schedules (every order of a battery of constructions with one repetition inserted anywhere); "
+            "a seeded sample of them is run, each in fresh interpreter processes with different PYTHONHASHSEED values, and "
+            "TLC checks that all observations of a construction - any process, seed, position or repetition - are equal; "
+            "head_content payload pairs are checked for name equality exactly on equal rendered content and for being "
+            "included once / twice in a document.",
+            "Trusted: TLC/SANY, Functional/Injective in the spec, sha1 digests printed by the worker processes, CPython's "
+            "PYTHONHASHSEED semantics.",
+            "TLA+ spec (Determinism) enumerated with TLC; TLC-generated schedules run in real interpreter processes; the "
+            "recorded observations validated by TLC trace spec (DetTrace)"),
 }
 
 NOT_YET = {}
